@@ -148,7 +148,12 @@ func genC19Journal(r *rng, kind string) (dirs []string, ndays int, injected bool
 
 func genC19(out *caseWriter, seed uint64, n int, args []string) error {
 	race := len(args) > 0 && args[0] == "race"
-	kinds := []string{"ok", "ok", "ok", "ok", "ok", "assert", "noprice", "syntax", "missing", "notopen"}
+	// failure kinds, by the stage that fails: syntax, missing (parser goroutines), model (model.FromStream: a directive
+	// that parses but is rejected on conversion - impossible date, unknown account type - in one to three files), multi
+	// (failures of different stages in different files at once), notopen, assert, noprice (processing pipeline).
+	// Seeded change C19b-fromstream-inline-hang (the model stage returns at the first error while parsers still wait
+	// to deliver their files) was missed before `model` and `multi` existed.
+	kinds := []string{"ok", "ok", "ok", "ok", "ok", "ok", "assert", "noprice", "syntax", "missing", "notopen", "model", "model", "multi"}
 	for i := 0; i < n; i++ {
 		r := newRng(seed, "C19", i)
 		kind := kinds[r.intn(len(kinds))]
@@ -227,6 +232,24 @@ func genC19(out *caseWriter, seed uint64, n int, args []string) error {
 		case "missing":
 			f := r.intn(nf)
 			c.files[f].lines = append(c.files[f].lines, "include \"does/not/exist.knut\"")
+		case "model", "multi":
+			bad := []string{"2021-02-30 open Assets:Leap\n", "2020-01-01 open Asset:Bank\n", "2020-06-31 price USD 0.9 CHF\n",
+				"2020-03-01 \"bad type\"\nAssets:Bank Expense:Rent 10 CHF\n"}
+			for q := r.rangeInt(1, 3); q > 0; q-- {
+				f := r.intn(nf)
+				pos := r.intn(len(c.files[f].lines) + 1)
+				ls := append([]string{}, c.files[f].lines[:pos]...)
+				ls = append(ls, pick(r, bad))
+				c.files[f].lines = append(ls, c.files[f].lines[pos:]...)
+			}
+			if kind == "multi" {
+				f := r.intn(nf)
+				if r.chance(50) {
+					c.files[f].lines = append(c.files[f].lines, "2020-13-45 open open ???\n")
+				} else {
+					c.files[f].lines = append(c.files[f].lines, "include \"does/not/exist.knut\"")
+				}
+			}
 		}
 		in := c.encode()
 		if race {
